@@ -17,5 +17,6 @@ theorem order_standardRenderer_stop : Tea.Gen.fact_order_standardRenderer_stop =
 theorem order_standardRenderer_start : Tea.Gen.fact_order_standardRenderer_start = Tea.Doc.fact_order_standardRenderer_start := rfl
 theorem body_Program_readLoop : Tea.Gen.fact_body_Program_readLoop = Tea.Doc.fact_body_Program_readLoop := rfl
 theorem body_Program_waitForReadLoop : Tea.Gen.fact_body_Program_waitForReadLoop = Tea.Doc.fact_body_Program_waitForReadLoop := rfl
+theorem body_standardRenderer_halt : Tea.Gen.fact_body_standardRenderer_halt = Tea.Doc.fact_body_standardRenderer_halt := rfl
 
 end Tea.Props.Bridge.C17
